@@ -5,7 +5,7 @@ package accumulation
 // tree (call-site sites) and runs the REAL duplication of the callee's triggers to its callers.
 //
 //	func callee(p *int) *int { one of 10 bodies }    (nil-propagating, identity, guarded identity, nil, anti, fresh; four more with the nil check spelled `nil == p` / `nil != p`)
-//	func Entry() { x := A; U }                        A ::= nil | new(int) | nil or new(int) behind an opaque flag
+//	func Entry() { x := A; U }                        A ::= nil | new(int) | nil or new(int) behind an opaque flag; or the literal nil handed over directly, callee(nil)
 //	   U ::= _ = *callee(x) | _ = *callee(callee(x)) | y := callee(x); if y != nil { _ = *y } | y := callee(x); _ = *y
 //
 // Oracle: the callee's semantics on "x is nil" (symbolic through the flag). P20.A1: Entry can dereference nil =>
@@ -63,7 +63,11 @@ func Harness_P20() {
 	var xnil bool
 	argNeverNil := false
 	b.WriteString("func Entry() {\n")
-	switch ndChoice("argument", 3) {
+	arg := "x"
+	switch ndChoice("argument", 4) {
+	case 3: // the nil literal handed over directly (a call whose arguments are all literals)
+		arg = "nil"
+		xnil = true
 	case 0:
 		b.WriteString("\tvar x *int\n")
 		xnil = true
@@ -77,16 +81,16 @@ func Harness_P20() {
 	var panics bool
 	switch ndChoice("use", 4) {
 	case 0:
-		b.WriteString("\t_ = *callee(x)\n")
+		b.WriteString("\t_ = *callee(" + arg + ")\n")
 		panics = out(xnil)
 	case 1:
-		b.WriteString("\t_ = *callee(callee(x))\n")
+		b.WriteString("\t_ = *callee(callee(" + arg + "))\n")
 		panics = out(out(xnil))
 	case 2:
-		b.WriteString("\ty := callee(x)\n\tif y != nil {\n\t\t_ = *y\n\t}\n")
+		b.WriteString("\ty := callee(" + arg + ")\n\tif y != nil {\n\t\t_ = *y\n\t}\n")
 		panics = false
 	default:
-		b.WriteString("\ty := callee(x)\n\t_ = *y\n")
+		b.WriteString("\ty := callee(" + arg + ")\n\t_ = *y\n")
 		panics = out(xnil)
 	}
 	b.WriteString("}\n")
